@@ -96,6 +96,7 @@ class FakePath:
 
 
 _SECTIONS = {}
+_REAL_TOML_LOAD = opts.tomli.load  # captured before prepare() replaces it
 
 
 def _fake_load(f):
@@ -359,6 +360,50 @@ def h18_reject(x: int, b: bool, s: str) -> bool:
     except InvalidConfigOption:
         return fin(True)
     return fin(False)
+
+
+def public_replay(template, data, args, kwargs):
+    """Public route for an h18_int counterexample: the same stack written as real TOML files in a scratch
+    directory and read by the unpatched parse_config_file through pathlib."""
+    if template != "h18_int":
+        return {"note": "no public route generated for this template"}
+    import importlib
+    import shutil
+    import tempfile
+    from pathlib import Path
+
+    vals = list(args[:9])
+    has_cmd, cmdval, qsel = args[9], args[10], args[11]
+    d = Path(tempfile.mkdtemp(prefix="c18_replay_"))
+    try:
+        opts.tomli.load = _REAL_TOML_LOAD
+        files = data["files"]
+        vi = 0
+        texts = {}
+        for i, fs_ in enumerate(files):
+            lines = ["[tool.pyanalyze]"]
+            if i + 1 < len(files):
+                lines.append(f'extend_config = "f{i + 1}.toml"')
+            if fs_["top"]:
+                lines.append(f"{INT_OPT.name} = {int(vals[vi])}")
+                vi += 1
+            for prefix, has_val, has_da in fs_["ovs"]:
+                lines.append("[[tool.pyanalyze.overrides]]")
+                lines.append(f'module = "{prefix}"')
+                if has_val:
+                    lines.append(f"{INT_OPT.name} = {int(vals[vi])}")
+                    vi += 1
+            texts[f"f{i}.toml"] = "\n".join(lines) + "\n"
+            (d / f"f{i}.toml").write_text(texts[f"f{i}.toml"])
+        instances = [INT_OPT(int(cmdval), from_command_line=True)] if has_cmd else []
+        options = Options.from_option_list(instances, config_file_path=d / "f0.toml")
+        query = QUERIES[qsel] if 0 <= qsel < len(QUERIES) - 1 else QUERIES[-1]
+        got = options.for_module(query).get_value_for(INT_OPT)
+        return {"files": texts, "command_line": int(cmdval) if has_cmd else None, "module": ".".join(query),
+                "effective_value_from_real_files": got}
+    finally:
+        opts.tomli.load = _fake_load
+        shutil.rmtree(d, ignore_errors=True)
 
 
 REJECTS = [
